@@ -288,6 +288,7 @@ func (r *Rule) doEvaluate(logger debuglog.Logger, phase types.RulePhase, tx *Tra
 						Str("arg", carg)
 
 					match := r.executeOperator(carg, tx)
+					verifOp(tx, r, chainLevel, arg.Variable(), arg.Key(), carg, match)
 					if match {
 						mr := &corazarules.MatchData{
 							Variable_:   arg.Variable(),
@@ -403,6 +404,7 @@ func (r *Rule) doEvaluate(logger debuglog.Logger, phase types.RulePhase, tx *Tra
 				// are evaluated previously, during the variable matching.
 				continue
 			}
+			verifAct(tx, r, a.Name, "flowOrDisruptive")
 			a.Function.Evaluate(r, tx)
 		}
 		if r.ID_ != noID {
@@ -449,9 +451,11 @@ func (r *Rule) transformArg(arg types.MatchData, argIdx int, cache map[transform
 			}
 			if cached, ok := cache[key]; ok {
 				if i == len(r.transformationPrefixIDs)-1 {
+					verifTf(r, "hit", argKeyPtr, argIdx, arg.Variable(), key.transformationsID, arg.Value(), cached.arg)
 					// Full chain cached — nothing more to compute
 					return cached.arg, cached.errs
 				}
+				verifTf(r, "prefix", argKeyPtr, argIdx, arg.Variable(), key.transformationsID, arg.Value(), cached.arg)
 				value = cached.arg
 				errs = cached.errs
 				startIdx = i + 1
@@ -476,6 +480,7 @@ func (r *Rule) transformArg(arg types.MatchData, argIdx int, cache map[transform
 				transformationsID: r.transformationPrefixIDs[i],
 			}
 			cache[key] = transformationValue{arg: value, errs: errs}
+			verifTf(r, "fill", argKeyPtr, argIdx, arg.Variable(), key.transformationsID, arg.Value(), value)
 		}
 
 		return value, errs
@@ -504,6 +509,7 @@ func (r *Rule) matchVariable(tx *Transaction, m *corazarules.MatchData) {
 		for _, a := range r.actions {
 			if a.Function.Type() == plugintypes.ActionTypeNondisruptive {
 				tx.DebugLogger().Debug().Str("action", a.Name).Msg("Evaluating action")
+				verifAct(tx, r, a.Name, "nonDisruptive")
 				a.Function.Evaluate(r, tx)
 			}
 		}
